@@ -127,7 +127,7 @@ func vfC02PoolCheck(live func() [][]byte) func(frameLens ...int) string {
 					continue
 				}
 				seenClass[class] = true
-				const batch = 4
+				const batch = 3
 				var bufs [batch][]byte
 				for i := range bufs {
 					bufs[i] = pool.Get(sz)
